@@ -302,6 +302,7 @@ spec fn dfs_inv(fb: Seq<FrameBufferValue>, fio: Seq<Frame>, m: Map<String, (usiz
     &&& (cur >= 0 ==> cur < fb.len() && fb[cur].opt_frame is None && !emitted(fb, fio, cur) && !in_seq(stack, cur) && !in_seq(rev, cur))
     &&& forall|b: int| 0 <= b < fb.len() && (#[trigger] fb[b]).opt_frame is None ==> emitted(fb, fio, b) || in_seq(stack, b) || in_seq(rev, b) || b == cur
     &&& forall|p: int| 0 <= p < stack.len() ==> iset.contains((#[trigger] stack[p]).index)
+    &&& forall|x: usize| #[trigger] iset.contains(x) ==> in_seq(stack, x as int)
     &&& forall|q: int, b: int| 0 <= q < stack.len() && stack[q].visited && #[trigger] dep(stack[q], m, b) ==> emitted(fb, fio, b) || above(stack, q, b) || in_seq(rev, b) || b == cur
 }
 // between two calls of sort_once: nothing in hand
@@ -507,6 +508,237 @@ proof fn dfs_unrev(fb: Seq<FrameBufferValue>, fio: Seq<Frame>, m: Map<String, (u
         if in_seq(rev0, c) { let p = choose|p: int| 0 <= p < rev0.len() && (#[trigger] rev0[p]).index == c; if p < last { assert(rev1[p].index == c); } else { assert(s2[top].index == c); } }
     }
 }
+
+// ---------- cycle verdict: CircularDependence / SelfDependentRule are reported only for a real cycle ----------
+// the rule graph, abstractly: g(a, b) = rule a depends on rule b (a source of a is a target of b); n rules
+spec fn in_g(f: Frame, m: Map<String, (usize, usize)>, g: spec_fn(int, int) -> bool, n: int) -> bool { f.index < n && forall|b: int| #[trigger] dep(f, m, b) ==> 0 <= b < n && g(f.index as int, b) }
+spec fn all_in_g(v: Seq<Frame>, m: Map<String, (usize, usize)>, g: spec_fn(int, int) -> bool, n: int) -> bool { forall|p: int| 0 <= p < v.len() ==> in_g(#[trigger] v[p], m, g, n) }
+spec fn is_path(g: spec_fn(int, int) -> bool, n: int, p: Seq<int>) -> bool {
+    p.len() >= 1 && (forall|i: int| 0 <= i < p.len() ==> 0 <= #[trigger] p[i] < n) && (forall|i: int| #![trigger p[i]] 0 <= i < p.len() - 1 ==> g(p[i], p[i + 1]))
+}
+spec fn reach(g: spec_fn(int, int) -> bool, n: int, a: int, b: int) -> bool { exists|p: Seq<int>| #[trigger] is_path(g, n, p) && p[0] == a && p.last() == b }
+// a real cycle: a path from a to b and an edge from b back to a
+spec fn cyclic(g: spec_fn(int, int) -> bool, n: int) -> bool { exists|a: int, b: int| #[trigger] reach(g, n, a, b) && g(b, a) }
+proof fn reach_refl(g: spec_fn(int, int) -> bool, n: int, a: int) requires 0 <= a < n ensures reach(g, n, a, a)
+{ let p = seq![a]; assert(is_path(g, n, p)); assert(p[0] == a && p.last() == a); }
+proof fn reach_step(g: spec_fn(int, int) -> bool, n: int, a: int, b: int, c: int) requires reach(g, n, a, b), 0 <= c < n, g(b, c) ensures reach(g, n, a, c)
+{
+    let p = choose|p: Seq<int>| #[trigger] is_path(g, n, p) && p[0] == a && p.last() == b;
+    let p2 = p.push(c);
+    assert forall|i: int| 0 <= i < p2.len() implies 0 <= #[trigger] p2[i] < n by { if i < p.len() { assert(p2[i] == p[i]); } }
+    assert forall|i: int| #![trigger p2[i]] 0 <= i < p2.len() - 1 implies g(p2[i], p2[i + 1]) by {
+        if i < p.len() - 1 { assert(p2[i] == p[i] && p2[i + 1] == p[i + 1]); } else { assert(p2[i] == p.last() && p2[i + 1] == c); }
+    }
+    assert(is_path(g, n, p2)); assert(p2[0] == p[0]); assert(p2.last() == c);
+}
+// the nearest visited frame below position r of the stack (-1: none)
+spec fn np(s: Seq<Frame>, r: int) -> int decreases r { if r <= 0 { -1 } else if s[r - 1].visited { r - 1 } else { np(s, r - 1) } }
+proof fn np_props(s: Seq<Frame>, r: int)
+    requires 0 <= r <= s.len()
+    ensures -1 <= np(s, r) < r, np(s, r) >= 0 ==> s[np(s, r)].visited, forall|q: int| np(s, r) < q < r ==> !(#[trigger] s[q]).visited
+    decreases r
+{ if r > 0 && !s[r - 1].visited { np_props(s, r - 1); } }
+proof fn np_ge(s: Seq<Frame>, q: int, r: int) requires 0 <= q < r <= s.len(), s[q].visited ensures np(s, r) >= q
+{ np_props(s, r); if np(s, r) < q { assert(!s[q].visited); } }
+proof fn np_same(s: Seq<Frame>, t: Seq<Frame>, r: int)
+    requires 0 <= r <= s.len(), r <= t.len(), forall|i: int| 0 <= i < r ==> (#[trigger] s[i]).visited == t[i].visited
+    ensures np(s, r) == np(t, r)
+    decreases r
+{ if r > 0 { assert(s[r - 1].visited == t[r - 1].visited); if !s[r - 1].visited { np_same(s, t, r - 1); } } }
+// removing an unvisited frame at pos: the nearest visited frame of every other position is the same frame
+proof fn np_remove(s: Seq<Frame>, pos: int, r: int)
+    requires 0 <= pos < s.len(), !s[pos].visited, 0 <= r <= s.len() - 1
+    ensures ({ let t = s.remove(pos); let r0 = if r <= pos { r } else { r + 1 }; let n0 = np(s, r0); np(t, r) == (if n0 > pos { n0 - 1 } else { n0 }) })
+    decreases r
+{
+    let t = s.remove(pos);
+    if r <= 0 { assert(np(t, r) == -1 && np(s, r) == -1); }
+    else if r <= pos {
+        assert(t[r - 1] == s[r - 1]);
+        assert(np(t, r) == (if t[r - 1].visited { r - 1 } else { np(t, r - 1) }));
+        assert(np(s, r) == (if s[r - 1].visited { r - 1 } else { np(s, r - 1) }));
+        if !s[r - 1].visited { np_remove(s, pos, r - 1); np_props(s, r - 1); }
+    } else {
+        assert(t[r - 1] == s[r]);
+        assert(np(t, r) == (if t[r - 1].visited { r - 1 } else { np(t, r - 1) }));
+        assert(np(s, r + 1) == (if s[r].visited { r } else { np(s, r) }));
+        if !s[r].visited {
+            np_remove(s, pos, r - 1);
+            if r - 1 == pos { assert(np(s, pos + 1) == (if s[pos].visited { pos } else { np(s, pos) })); np_props(s, pos); }
+        }
+    }
+}
+// the parent structure of the traversal: every stack frame that has a visited frame below it is something that frame depends on;
+// the frame in hand is something the topmost visited frame depends on; what waits in rev is something the frame in hand depends
+// on (cur >= 0), or -- once that frame is back on the stack, visited -- something the topmost visited frame depends on (cur < 0)
+#[verifier::opaque]
+spec fn par_inv(stack: Seq<Frame>, rev: Seq<Frame>, cur: int, g: spec_fn(int, int) -> bool) -> bool {
+    &&& forall|r: int| 0 <= r < stack.len() && np(stack, r) >= 0 ==> g(stack[np(stack, r)].index as int, (#[trigger] stack[r]).index as int)
+    &&& (cur >= 0 && np(stack, stack.len() as int) >= 0 ==> g(stack[np(stack, stack.len() as int)].index as int, cur))
+    &&& forall|i: int| 0 <= i < rev.len() ==> (if cur >= 0 { g(cur, (#[trigger] rev[i]).index as int) } else { np(stack, stack.len() as int) >= 0 && g(stack[np(stack, stack.len() as int)].index as int, rev[i].index as int) })
+}
+proof fn par_start(g: spec_fn(int, int) -> bool) ensures par_inv(Seq::empty(), Seq::empty(), -1, g) { reveal(par_inv); }
+proof fn par_first(f: Frame, g: spec_fn(int, int) -> bool) ensures par_inv(Seq::<Frame>::empty().push(f), Seq::empty(), -1, g)
+{ reveal(par_inv); let s = Seq::<Frame>::empty().push(f); assert(np(s, 0) == -1); }
+proof fn par_pop(stack0: Seq<Frame>, g: spec_fn(int, int) -> bool)
+    requires par_inv(stack0, Seq::empty(), -1, g), stack0.len() > 0, !stack0.last().visited
+    ensures par_inv(stack0.drop_last(), Seq::empty(), stack0.last().index as int, g)
+{
+    reveal(par_inv);
+    let s1 = stack0.drop_last(); let top = stack0.len() - 1;
+    assert forall|r: int| 0 <= r <= s1.len() implies np(s1, r) == np(stack0, r) by { np_same(s1, stack0, r); }
+    assert forall|r: int| 0 <= r < s1.len() && np(s1, r) >= 0 implies g(s1[np(s1, r)].index as int, (#[trigger] s1[r]).index as int) by {
+        np_props(stack0, r); assert(s1[r] == stack0[r]); assert(g(stack0[np(stack0, r)].index as int, stack0[r].index as int));
+    }
+    if np(s1, s1.len() as int) >= 0 { np_props(stack0, top); assert(g(stack0[np(stack0, top)].index as int, stack0[top].index as int)); }
+}
+proof fn par_emit(stack0: Seq<Frame>, g: spec_fn(int, int) -> bool)
+    requires par_inv(stack0, Seq::empty(), -1, g), stack0.len() > 0
+    ensures par_inv(stack0.drop_last(), Seq::empty(), -1, g)
+{
+    reveal(par_inv);
+    let s1 = stack0.drop_last();
+    assert forall|r: int| 0 <= r < s1.len() && np(s1, r) >= 0 implies g(s1[np(s1, r)].index as int, (#[trigger] s1[r]).index as int) by {
+        np_same(s1, stack0, r); np_props(stack0, r); assert(s1[r] == stack0[r]); assert(g(stack0[np(stack0, r)].index as int, stack0[r].index as int));
+    }
+}
+// a frame the frame in hand depends on goes to rev (taken from the table, or moved up from the stack where it waited unvisited)
+proof fn par_take(stack: Seq<Frame>, rev: Seq<Frame>, cur: int, g: spec_fn(int, int) -> bool, f: Frame)
+    requires par_inv(stack, rev, cur, g), cur >= 0, g(cur, f.index as int)
+    ensures par_inv(stack, rev.push(f), cur, g)
+{
+    reveal(par_inv);
+    let rev2 = rev.push(f);
+    assert forall|i: int| 0 <= i < rev2.len() implies g(cur, (#[trigger] rev2[i]).index as int) by { if i < rev.len() { assert(rev2[i] == rev[i]); } }
+}
+// P1 for one position of the stack after an unvisited frame was removed
+proof fn sib_one(stack: Seq<Frame>, rev: Seq<Frame>, cur: int, g: spec_fn(int, int) -> bool, pos: int, r: int)
+    requires par_inv(stack, rev, cur, g), 0 <= pos < stack.len(), !stack[pos].visited, 0 <= r < stack.len() - 1, np(stack.remove(pos), r) >= 0
+    ensures g(stack.remove(pos)[np(stack.remove(pos), r)].index as int, stack.remove(pos)[r].index as int)
+{
+    reveal(par_inv);
+    let t = stack.remove(pos);
+    np_remove(stack, pos, r);
+    if r < pos {
+        let n0 = np(stack, r); np_props(stack, r);
+        assert(np(t, r) == n0); assert(t[r] == stack[r]); assert(t[n0] == stack[n0]);
+        assert(g(stack[n0].index as int, stack[r].index as int));
+    } else if r == pos {
+        let n0 = np(stack, pos); np_props(stack, pos);
+        assert(np(t, r) == n0); assert(t[n0] == stack[n0]); assert(t[r] == stack[pos + 1]);
+        assert(np(stack, pos + 1) == (if stack[pos].visited { pos } else { np(stack, pos) }));
+        assert(g(stack[np(stack, pos + 1)].index as int, stack[pos + 1].index as int));
+    } else {
+        let n0 = np(stack, r + 1); np_props(stack, r + 1);
+        assert(t[r] == stack[r + 1]);
+        if n0 >= 0 { assert(stack[n0].visited); }
+        if n0 > pos { assert(np(t, r) == n0 - 1); assert(t[n0 - 1] == stack[n0]); } else { assert(np(t, r) == n0); assert(n0 < pos); assert(t[n0] == stack[n0]); }
+        assert(g(stack[n0].index as int, stack[r + 1].index as int));
+    }
+}
+// the topmost visited frame is the same frame after an unvisited frame was removed
+proof fn sib_top(stack: Seq<Frame>, pos: int)
+    requires 0 <= pos < stack.len(), !stack[pos].visited
+    ensures ({ let t = stack.remove(pos); let a = np(stack, stack.len() as int); let b = np(t, t.len() as int); (a < 0 <==> b < 0) && (a >= 0 ==> t[b] == stack[a]) })
+{
+    let t = stack.remove(pos); let a = np(stack, stack.len() as int); np_props(stack, stack.len() as int);
+    if pos == stack.len() - 1 {
+        assert(np(stack, pos + 1) == (if stack[pos].visited { pos } else { np(stack, pos) }));
+        np_same(t, stack, pos);
+        if a >= 0 { assert(t[a] == stack[a]); }
+    } else {
+        np_remove(stack, pos, t.len() as int);
+        if a >= 0 { assert(stack[a].visited); if a > pos { assert(t[a - 1] == stack[a]); } else { assert(t[a] == stack[a]); } }
+    }
+}
+proof fn par_sibling(stack: Seq<Frame>, rev: Seq<Frame>, cur: int, g: spec_fn(int, int) -> bool, pos: int, f: Frame)
+    requires par_inv(stack, rev, cur, g), cur >= 0, 0 <= pos < stack.len(), !stack[pos].visited, g(cur, f.index as int)
+    ensures par_inv(stack.remove(pos), rev.push(f), cur, g)
+{
+    let t = stack.remove(pos); let rev2 = rev.push(f);
+    assert forall|r: int| 0 <= r < t.len() && np(t, r) >= 0 implies g(t[np(t, r)].index as int, (#[trigger] t[r]).index as int) by { sib_one(stack, rev, cur, g, pos, r); }
+    sib_top(stack, pos);
+    reveal(par_inv);
+    assert forall|i: int| 0 <= i < rev2.len() implies g(cur, (#[trigger] rev2[i]).index as int) by { if i < rev.len() { assert(rev2[i] == rev[i]); } }
+}
+// the frame in hand goes back on the stack, visited: it is the topmost visited frame now, and what waits in rev is what it depends on
+proof fn par_visit(stack: Seq<Frame>, rev: Seq<Frame>, cur: int, g: spec_fn(int, int) -> bool, fv: Frame)
+    requires par_inv(stack, rev, cur, g), cur >= 0, fv.index == cur, fv.visited
+    ensures par_inv(stack.push(fv), rev, -1, g)
+{
+    reveal(par_inv);
+    let s2 = stack.push(fv); let top = stack.len() as int;
+    assert forall|r: int| 0 <= r <= top implies np(s2, r) == np(stack, r) by { np_same(s2, stack, r); }
+    assert(np(s2, top + 1) == top);
+    assert forall|r: int| 0 <= r < s2.len() && np(s2, r) >= 0 implies g(s2[np(s2, r)].index as int, (#[trigger] s2[r]).index as int) by {
+        np_props(stack, r);
+        if r < top { assert(s2[r] == stack[r]); assert(s2[np(stack, r)] == stack[np(stack, r)]); assert(g(stack[np(stack, r)].index as int, stack[r].index as int)); }
+        else { assert(s2[np(stack, top)] == stack[np(stack, top)]); }
+    }
+}
+proof fn par_unrev(stack: Seq<Frame>, rev0: Seq<Frame>, g: spec_fn(int, int) -> bool)
+    requires par_inv(stack, rev0, -1, g), rev0.len() > 0, !rev0.last().visited
+    ensures par_inv(stack.push(rev0.last()), rev0.drop_last(), -1, g)
+{
+    reveal(par_inv);
+    let f = rev0.last(); let s2 = stack.push(f); let top = stack.len() as int; let rev1 = rev0.drop_last();
+    assert forall|r: int| 0 <= r <= top implies np(s2, r) == np(stack, r) by { np_same(s2, stack, r); }
+    assert(np(s2, top + 1) == np(stack, top));
+    let tv = np(stack, top); np_props(stack, top);
+    assert(tv >= 0 && g(stack[tv].index as int, f.index as int)) by { assert(rev0[rev0.len() - 1] == f); }
+    assert forall|r: int| 0 <= r < s2.len() && np(s2, r) >= 0 implies g(s2[np(s2, r)].index as int, (#[trigger] s2[r]).index as int) by {
+        np_props(stack, r);
+        if r < top { assert(s2[r] == stack[r]); assert(s2[np(stack, r)] == stack[np(stack, r)]); assert(g(stack[np(stack, r)].index as int, stack[r].index as int)); }
+        else { assert(s2[tv] == stack[tv]); }
+    }
+    assert forall|i: int| 0 <= i < rev1.len() implies np(s2, s2.len() as int) >= 0 && g(s2[np(s2, s2.len() as int)].index as int, (#[trigger] rev1[i]).index as int) by {
+        assert(rev1[i] == rev0[i]); assert(s2[tv] == stack[tv]);
+    }
+}
+// visited stack frames form a chain of dependencies, bottom to top
+proof fn vis_reach(stack: Seq<Frame>, rev: Seq<Frame>, cur: int, g: spec_fn(int, int) -> bool, n: int, q: int, r: int)
+    requires par_inv(stack, rev, cur, g), 0 <= q <= r < stack.len(), stack[q].visited, stack[r].visited, forall|p: int| 0 <= p < stack.len() ==> (#[trigger] stack[p]).index < n
+    ensures reach(g, n, stack[q].index as int, stack[r].index as int)
+    decreases r - q
+{
+    reveal(par_inv);
+    if q == r { reach_refl(g, n, stack[q].index as int); }
+    else {
+        np_ge(stack, q, r); np_props(stack, r);
+        let k = np(stack, r);
+        vis_reach(stack, rev, cur, g, n, q, k);
+        assert(g(stack[k].index as int, stack[r].index as int));
+        reach_step(g, n, stack[q].index as int, stack[k].index as int, stack[r].index as int);
+    }
+}
+// the frame in hand depends on a rule whose frame sits on the stack, VISITED (an ancestor): that is a real cycle      //# L-S-cycle-real [C12]
+proof fn cycle_found(stack: Seq<Frame>, rev: Seq<Frame>, cur: int, g: spec_fn(int, int) -> bool, n: int, q: int)
+    requires par_inv(stack, rev, cur, g), 0 <= cur < n, 0 <= q < stack.len(), stack[q].visited, g(cur, stack[q].index as int), forall|p: int| 0 <= p < stack.len() ==> (#[trigger] stack[p]).index < n
+    ensures cyclic(g, n)
+{
+    let t = np(stack, stack.len() as int);
+    np_ge(stack, q, stack.len() as int); np_props(stack, stack.len() as int);
+    vis_reach(stack, rev, cur, g, n, q, t);
+    assert(g(stack[t].index as int, cur)) by { reveal(par_inv); }
+    reach_step(g, n, stack[q].index as int, stack[t].index as int, cur);
+}
+proof fn self_cycle(g: spec_fn(int, int) -> bool, n: int, a: int) requires 0 <= a < n, g(a, a) ensures cyclic(g, n) { reach_refl(g, n, a); }
+// a frame keeps its place in the graph when only its sub_index / visited flag change
+proof fn in_g_same(f: Frame, f2: Frame, m: Map<String, (usize, usize)>, g: spec_fn(int, int) -> bool, n: int)
+    requires in_g(f, m, g, n), f2.index == f.index, f2.sources == f.sources ensures in_g(f2, m, g, n)
+{ assert forall|b: int| #[trigger] dep(f2, m, b) implies 0 <= b < n && g(f2.index as int, b) by { assert(dep_upto(f, m, b, f.sources@.len() as int)); assert(dep(f, m, b)); } }
+// source k of f is a target of rule b: f depends on b
+proof fn dep_intro(f: Frame, m: Map<String, (usize, usize)>, k: int, b: int)
+    requires 0 <= k < f.sources@.len(), m.contains_key(f.sources@[k]), m[f.sources@[k]].0 == b ensures dep(f, m, b)
+{ assert(dep_upto(f, m, b, f.sources@.len() as int)); }
+proof fn dfs_on_stack(fb: Seq<FrameBufferValue>, fio: Seq<Frame>, m: Map<String, (usize, usize)>, tl: Seq<int>, stack: Seq<Frame>, rev: Seq<Frame>, cur: int, iset: Set<usize>, b: usize)
+    requires dfs_inv(fb, fio, m, tl, stack, rev, cur, iset), iset.contains(b) ensures in_seq(stack, b as int)
+{ reveal(dfs_inv); }
+// the rule graph of a table: rule a has a source that is a target of rule b
+spec fn edge_t(tab: Seq<RuleSpec>, a: int, b: int) -> bool {
+    0 <= a < tab.len() && exists|j: int, s: int| 0 <= j < tab[a].sources.len() && #[trigger] is_target(tab, b, s, sort_spec(tab[a].sources)[j])
+}
+spec fn g_tab(tab: Seq<RuleSpec>) -> spec_fn(int, int) -> bool { |a: int, b: int| edge_t(tab, a, b) }
 // every rule-to-rule edge of the plan points to an EARLIER node, and at one of that node's targets
 spec fn edges_back(nodes: Seq<Node>) -> bool {
     forall|i: int, k: int| 0 <= i < nodes.len() && 0 <= k < nodes[i].source_indices@.len() ==>
@@ -544,6 +776,10 @@ proof fn plan_order(nodes: Seq<Node>, fio: Seq<Frame>, leaves: Seq<String>, m: M
 impl TopologicalSortMachine {
     // every emitted frame knows where each of its sources comes from (needed by get_result's unwrap)
     spec fn wf_e(&self) -> bool { all_known(self.frames_in_order@, self.to_buffer_index@, self.source_leaves@, false) }
+    // every frame still in the table is a node of the graph g (its dependencies are edges of g)
+    spec fn wf_g(&self, g: spec_fn(int, int) -> bool, n: int) -> bool {
+        forall|b: int| 0 <= b < self.frame_buffer@.len() ==> ((#[trigger] self.frame_buffer@[b]).opt_frame matches Some(f) ==> in_g(f, self.to_buffer_index@, g, n))
+    }
     // between calls: the emitted list is in dependency order and every rule taken from the table is in it
     spec fn wf_o(&self, tl: Seq<int>) -> bool { rest_ok(self.frame_buffer@, self.frames_in_order@, self.to_buffer_index@, tl) }
     // machine well-formedness, safety part: buffered frames sit at their own index with at least one target; the target index
@@ -562,18 +798,22 @@ impl TopologicalSortMachine {
 //@ rewrite 1 /source\.to_owned\(\)/ => string_to_owned(source)
 //@ retype 1 /let mut reverser = vec!\[\];/ => let mut reverser : Vec<Frame> = Vec::new();
 //@ retype 1 /let mut target_cycle = vec!\[\];/ => let mut target_cycle : Vec<String> = Vec::new();
-//@ param Ghost(tl): Ghost<Seq<int>>
+//@ param Ghost(tl): Ghost<Seq<int>>, Ghost(g): Ghost<spec_fn(int, int) -> bool>
 //@ spec
-        requires old(self).wf_s(tl), old(self).wf_e(), old(self).wf_o(tl), index < tl.len(), sub_index < tl[index as int],
+        requires old(self).wf_s(tl), old(self).wf_e(), old(self).wf_o(tl), old(self).wf_g(g, tl.len() as int), index < tl.len(), sub_index < tl[index as int],
         ensures final(self).wf_s(tl),                                                     //# O-S-machine-wf [C12,C05]
             res is Ok ==> final(self).wf_e(),                                             //# O-S-sources-known [C12,C05]
             // a rule is emitted only after every rule it depends on: the emitted list stays in dependency order             //# O-S-order [C12,C03,C05]
             res is Ok ==> final(self).wf_o(tl),
+            // an error is reported only for a REAL cycle of the rule graph (a rule depending on itself is a cycle of length one):
+            // acyclic rule sets are never rejected                                                                          //# O-S-cycle-real [C12]
+            res matches Err(e) ==> (e is CircularDependence || e is SelfDependentRule) && cyclic(g, tl.len() as int),
+            final(self).wf_g(g, tl.len() as int),
             final(self).to_buffer_index@ == old(self).to_buffer_index@,
 //@ hint start
         broadcast use vstd::std_specs::hash::group_hash_axioms;
         proof { string_key_model(); usize_key_model(); }
-        let ghost m = self.to_buffer_index@; let ghost fbs = self.frame_buffer@; let ghost fios = self.frames_in_order@;
+        let ghost m = self.to_buffer_index@; let ghost fbs = self.frame_buffer@; let ghost fios = self.frames_in_order@; let ghost n = tl.len() as int;
 //@ hint before 1/1 /return Ok\(\(\)\);/
                 proof { assert(self.frame_buffer@ =~= fbs); }
 //@ hint after 1/1 /let mut stack = vec!\[starting_frame\];/
@@ -586,6 +826,8 @@ impl TopologicalSortMachine {
             dfs_unrev(self.frame_buffer@, fios, m, tl, e, e.push(stack@[0]), Set::empty(), stack@[0]);
             assert(stack@ =~= e.push(stack@[0]));
             assert(indices_in_stack@ =~= Set::<usize>::empty().insert(index));
+            par_first(stack@[0], g);
+            in_g_same(fbs[index as int].opt_frame->Some_0, stack@[0], m, g, n);
         }
         let ghost mut gst = stack@;      // the stack as it was at the loop head (a `while let .. pop()` leaves no name for it)
 //@ hint before 2/2 /Ok\(\(\)\)/
@@ -594,6 +836,7 @@ impl TopologicalSortMachine {
             invariant self.wf_s(tl), all_fok(stack@, tl), obeys_key_model::<String>(), obeys_key_model::<usize>(),
                 self.wf_e(), all_known(stack@, self.to_buffer_index@, self.source_leaves@, true), self.to_buffer_index@ == old(self).to_buffer_index@,
                 m == self.to_buffer_index@, dfs_inv(self.frame_buffer@, self.frames_in_order@, m, tl, stack@, Seq::empty(), -1, indices_in_stack@), gst == stack@,
+                n == tl.len(), self.wf_g(g, n), all_in_g(stack@, m, g, n), par_inv(stack@, Seq::empty(), -1, g),
             ensures stack@.len() == 0,
             decreases count_some(self.frame_buffer@) + count_unv(stack@), stack@.len(),
 //@ hint after 1/1 /while let Some\(frame\) = stack\.pop\(\)\s*\{/
@@ -607,10 +850,11 @@ impl TopologicalSortMachine {
                 proof {
                     dfs_emit(fb0, fio0, m, tl, stk0, is0, fr_cur, self.frame_buffer@[fr_cur.index as int], self.frame_buffer@);
                     assert(stk0.drop_last() =~= stack@);
+                    par_emit(stk0, g);
                     gst = stack@;
                 }
 //@ hint after 1/1 /let mut reverser = vec!\[\];/
-                proof { dfs_pop(fb0, fio0, m, tl, stk0, is0, fr_cur); assert(stk0.drop_last() =~= stack@); }
+                proof { dfs_pop(fb0, fio0, m, tl, stk0, is0, fr_cur); assert(stk0.drop_last() =~= stack@); par_pop(stk0, g); }
                 let ghost mut grv = reverser@;      // the reverser as it was at the head of the loop that empties it
 //@ hint before 1/1 /while let Some\(f\) = reverser\.pop\(\)/
                 proof { grv = reverser@; }
@@ -624,21 +868,33 @@ impl TopologicalSortMachine {
                         m == self.to_buffer_index@, fr_cur == frame, cur == frame.index,
                         dfs_inv(self.frame_buffer@, self.frames_in_order@, m, tl, stack@, reverser@, cur, indices_in_stack@),
                         srcs_placed(frame, m, it.index@, self.frame_buffer@, self.frames_in_order@, reverser@),
+                        n == tl.len(), self.wf_g(g, n), all_in_g(stack@, m, g, n), all_in_g(reverser@, m, g, n), in_g(frame, m, g, n), par_inv(stack@, reverser@, cur, g),
 //@ loop 3 binder it3
 //@ loop 3 invariant
-                                                invariant all_fok(stack@, tl), fok(frame, tl),
+                                                invariant all_fok(stack@, tl), fok(frame, tl), cyclic(g, n), n == tl.len(),
 //@ loop 4 invariant
                     invariant self.wf_s(tl), all_fok(stack@, tl), all_fok(reverser@, tl), obeys_key_model::<usize>(),
                         all_unv(reverser@),
                         self.wf_e(), all_known(stack@, self.to_buffer_index@, self.source_leaves@, true), self.to_buffer_index@ == old(self).to_buffer_index@,
                         count_some(self.frame_buffer@) + count_unv(stack@) + reverser@.len() == m0 - 1,
                         dfs_inv(self.frame_buffer@, self.frames_in_order@, m, tl, stack@, reverser@, -1, indices_in_stack@), grv == reverser@,
+                        n == tl.len(), self.wf_g(g, n), all_in_g(stack@, m, g, n), all_in_g(reverser@, m, g, n), par_inv(stack@, reverser@, -1, g),
                     ensures reverser@.len() == 0,
                     decreases reverser@.len(),
+//@ hint before 1/1 /return Err\(TopologicalSortError::SelfDependentRule\(/
+                                    proof { self_cycle(g, n, cur); }
+//@ hint before 1/1 /let mut target_cycle = vec!\[\];/
+                                            proof {
+                                                dfs_on_stack(fb1, fio1, m, tl, st1, rv1, cur, is1, *buffer_index);
+                                                let q = choose|q: int| 0 <= q < st1.len() && (#[trigger] st1[q]).index == b1;
+                                                assert(st1[q].visited);
+                                                assert forall|p: int| 0 <= p < st1.len() implies (#[trigger] st1[p]).index < n by { assert(in_g(st1[p], m, g, n)); }
+                                                cycle_found(st1, rv1, cur, g, n, q);
+                                            }
 //@ hint before 1/1 /if let Some\(mut frame\) = self\.frame_buffer\[\*buffer_index\]\.opt_frame\.take\(\)/
                             let ghost fb1 = self.frame_buffer@; let ghost rv1 = reverser@; let ghost st1 = stack@; let ghost is1 = indices_in_stack@; let ghost fio1 = self.frames_in_order@;
                             let ghost k1 = it.index@; let ghost b1 = *buffer_index as int;
-                            proof { assert(m.contains_key(*source) && m[*source].0 == *buffer_index); assert(fr_cur.sources@[k1] == *source); }
+                            proof { assert(m.contains_key(*source) && m[*source].0 == *buffer_index); assert(fr_cur.sources@[k1] == *source); dep_intro(fr_cur, m, k1, b1); assert(g(cur, b1)); }
 //@ hint after 1/1 /frame\.sub_index = \*sub_index;\s*reverser\.push\(frame\);/
                                 proof {
                                     assert(self.frame_buffer@ =~= fb1.update(*buffer_index as int, self.frame_buffer@[*buffer_index as int]));
@@ -647,6 +903,8 @@ impl TopologicalSortMachine {
                                     dfs_take(fb1, fio1, m, tl, st1, rv1, cur, is1, b1, reverser@.last(), self.frame_buffer@);
                                     assert(reverser@ =~= rv1.push(reverser@.last()));
                                     placed_step(fr_cur, m, k1, fb1, fio1, rv1, self.frame_buffer@, reverser@);
+                                    par_take(st1, rv1, cur, g, reverser@.last());
+                                    in_g_same(fb1[b1].opt_frame->Some_0, reverser@.last(), m, g, n);
                                 }
 //@ hint after 1/1 /sibling\.sub_index = \*sub_index;\s*reverser\.push\(sibling\);/
                                             proof {
@@ -654,6 +912,8 @@ impl TopologicalSortMachine {
                                                 dfs_sibling(fb1, fio1, m, tl, st1, rv1, cur, is1, position as int, reverser@.last());
                                                 assert(reverser@ =~= rv1.push(reverser@.last()));
                                                 placed_step(fr_cur, m, k1, fb1, fio1, rv1, fb1, reverser@);
+                                                par_sibling(st1, rv1, cur, g, position as int, reverser@.last());
+                                                in_g_same(st1[position as int], reverser@.last(), m, g, n);
                                             }
 //@ hint before 1/1 /self\.source_leaves\.insert\(/
                             let ghost lv0 = self.source_leaves@;
@@ -680,6 +940,8 @@ impl TopologicalSortMachine {
                     placed_same_sources(fr_cur, stack@.last(), m, fr_cur.sources@.len() as int, self.frame_buffer@, self.frames_in_order@, reverser@);
                     dfs_visit(self.frame_buffer@, self.frames_in_order@, m, tl, st_before_visit, reverser@, cur, is_before_visit, stack@.last());
                     assert(stack@ =~= st_before_visit.push(stack@.last()));
+                    par_visit(st_before_visit, reverser@, cur, g, stack@.last());
+                    in_g_same(fr_cur, stack@.last(), m, g, n);
                 }
 //@ hint before 1/1 /stack\.push\(frame\.visit\(\)\);/
                 let ghost st_before_visit = stack@; let ghost is_before_visit = indices_in_stack@;
@@ -687,7 +949,7 @@ impl TopologicalSortMachine {
                     let ghost st4 = stack@; let ghost rv4 = grv; let ghost is4 = indices_in_stack@; let ghost fg = f;
                     proof { assert(rv4.drop_last() =~= reverser@); }
 //@ hint after 1/1 /indices_in_stack\.insert\(f\.index\);\s*stack\.push\(f\);/
-                    proof { count_unv_push(st4, fg); dfs_unrev(self.frame_buffer@, self.frames_in_order@, m, tl, st4, rv4, is4, fg); assert(stack@ =~= st4.push(fg)); grv = reverser@; }
+                    proof { count_unv_push(st4, fg); dfs_unrev(self.frame_buffer@, self.frames_in_order@, m, tl, st4, rv4, is4, fg); assert(stack@ =~= st4.push(fg)); par_unrev(st4, rv4, g); grv = reverser@; }
 //@ hint after 1/1 /indices_in_stack\.insert\(f\.index\);\s*stack\.push\(f\);\s*\}/
                 proof { assert(reverser@ =~= Seq::<Frame>::empty()); gst = stack@; }
 //@ end
@@ -802,11 +1064,33 @@ proof fn table_wf(fb: Seq<FrameBufferValue>, m: Map<String, (usize, usize)>, tab
     }
 }
 
+// every frame of the fresh table is a node of the table's rule graph
+proof fn table_in_g(fb: Seq<FrameBufferValue>, m: Map<String, (usize, usize)>, tab: Seq<RuleSpec>)
+    requires fb.len() == tab.len(), forall|b: int| 0 <= b < tab.len() ==> slot_ok(#[trigger] fb[b], tab[b], b), index_ok(m, tab, tab.len() as int),
+    ensures forall|b: int| 0 <= b < fb.len() ==> ((#[trigger] fb[b]).opt_frame matches Some(f) ==> in_g(f, m, g_tab(tab), tab.len() as int))
+{
+    assert forall|a: int| 0 <= a < fb.len() implies ((#[trigger] fb[a]).opt_frame matches Some(f) ==> in_g(f, m, g_tab(tab), tab.len() as int)) by {
+        assert(slot_ok(fb[a], tab[a], a));
+        let f = fb[a].opt_frame->Some_0;
+        sort_axioms(tab[a].sources);
+        assert forall|b: int| #[trigger] dep(f, m, b) implies 0 <= b < tab.len() && g_tab(tab)(f.index as int, b) by {
+            let j = choose|j: int| 0 <= j < f.sources@.len() && j < f.sources@.len() && m.contains_key(#[trigger] f.sources@[j]) && m[f.sources@[j]].0 == b;
+            let key = f.sources@[j];
+            assert(is_target(tab, m[key].0 as int, m[key].1 as int, key@));
+            assert(strs(f.sources@)[j] == key@);
+            assert(strs(f.sources@).len() == f.sources@.len());
+            assert(is_target(tab, b, m[key].1 as int, sort_spec(tab[a].sources)[j]));
+            assert(edge_t(tab, a, b));
+        }
+    }
+}
+
 //@ extract sort.rs fn topological_sort
 //@ props C12 C05 C01
 //@ ret res
 //@ rewrite 1 /to_buffer_index\.get\(goal_target\)/ => map_get_str(&to_buffer_index, goal_target)
-//@ addarg * /machine\.sort_once|machine\.get_result/ Ghost(tl)
+//@ addarg * /machine\.sort_once/ Ghost(tl), Ghost(g)
+//@ addarg * /machine\.get_result/ Ghost(tl)
 //@ spec
     requires rules@.len() <= usize::MAX, nonempty_targets(rules@),
     ensures
@@ -817,11 +1101,13 @@ proof fn table_wf(fb: Seq<FrameBufferValue>, m: Map<String, (usize, usize)>, tab
         // a plan that is handed out is in dependency order: every rule-to-rule edge points to an earlier node (at one of its targets),
         // every leaf edge to a listed leaf                                                                                     //# O-S-plan-order [C12,C03,C05]
         res matches Ok(pack) ==> plan_ok(pack),
+        // a cycle is reported only when the rule set has one: acyclic rule sets are never rejected as cyclic                     //# O-S-cycle-real [C12]
+        res matches Err(e) ==> ((e is CircularDependence || e is SelfDependentRule) ==> cyclic(g_tab(sort_rules_spec(rules_view(rules@))), sort_rules_spec(rules_view(rules@)).len() as int)),
 //@ hint start
     broadcast use vstd::std_specs::hash::group_hash_axioms;
     proof { string_key_model(); }
     let ghost tab = sort_rules_spec(rules_view(rules@));
-    let ghost tl = tcounts(tab);
+    let ghost tl = tcounts(tab); let ghost g = g_tab(tab);
     let ghost rv = rules_view(rules@);
 //@ hint after 1/1 /let \(frame_buffer, to_buffer_index\) = rules_to_frame_buffer\(rules\)\?;/
     proof {
@@ -832,6 +1118,7 @@ proof fn table_wf(fb: Seq<FrameBufferValue>, m: Map<String, (usize, usize)>, tab
         assert forall|b: int| 0 <= b < tab.len() implies (#[trigger] tab[b]).targets.len() > 0 by { sorted_nonempty(rv, b); }
         table_wf(frame_buffer@, to_buffer_index@, tab);
         assert(rest_ok(frame_buffer@, Seq::<Frame>::empty(), to_buffer_index@, tl)) by { reveal(rest_ok); }
+        table_in_g(frame_buffer@, to_buffer_index@, tab);
     }
 //@ hint after 1/1 /let mut machine = TopologicalSortMachine::new\(frame_buffer, to_buffer_index\);/
     proof { assert(machine.frames_in_order@ =~= Seq::<Frame>::empty()); }
@@ -841,14 +1128,16 @@ proof fn table_wf(fb: Seq<FrameBufferValue>, m: Map<String, (usize, usize)>, tab
 //@ props C12 C05 C01
 //@ attr #[verifier::loop_isolation(false)]
 //@ ret res
-//@ addarg * /machine\.sort_once|machine\.get_result/ Ghost(tl)
+//@ addarg * /machine\.sort_once/ Ghost(tl), Ghost(g)
+//@ addarg * /machine\.get_result/ Ghost(tl)
 //@ spec
     requires rules@.len() <= usize::MAX, nonempty_targets(rules@),
     ensures true,       // total: no panic, termination (native obligations)                                                  //# O-S-total-all [C05,C12]
         res matches Ok(pack) ==> plan_ok(pack),                                                                               //# O-S-plan-order [C12,C03,C05]
+        res matches Err(e) ==> ((e is CircularDependence || e is SelfDependentRule) ==> cyclic(g_tab(sort_rules_spec(rules_view(rules@))), sort_rules_spec(rules_view(rules@)).len() as int)),   //# O-S-cycle-real [C12]
 //@ hint start
     let ghost tab = sort_rules_spec(rules_view(rules@));
-    let ghost tl = tcounts(tab);
+    let ghost tl = tcounts(tab); let ghost g = g_tab(tab);
     let ghost rv = rules_view(rules@);
 //@ hint after 1/1 /let \(frame_buffer, to_buffer_index\) = rules_to_frame_buffer\(rules\)\?;/
     proof {
@@ -856,11 +1145,12 @@ proof fn table_wf(fb: Seq<FrameBufferValue>, m: Map<String, (usize, usize)>, tab
         assert forall|b: int| 0 <= b < tab.len() implies (#[trigger] tab[b]).targets.len() > 0 by { sorted_nonempty(rv, b); }
         table_wf(frame_buffer@, to_buffer_index@, tab);
         assert(rest_ok(frame_buffer@, Seq::<Frame>::empty(), to_buffer_index@, tl)) by { reveal(rest_ok); }
+        table_in_g(frame_buffer@, to_buffer_index@, tab);
     }
 //@ hint after 1/1 /let mut machine = TopologicalSortMachine::new\(frame_buffer, to_buffer_index\);/
     proof { assert(machine.frames_in_order@ =~= Seq::<Frame>::empty()); }
 //@ loop 1 invariant
-        invariant machine.wf_s(tl), machine.wf_e(), machine.wf_o(tl), frame_buffer_len == tl.len(),
+        invariant machine.wf_s(tl), machine.wf_e(), machine.wf_o(tl), machine.wf_g(g, tl.len() as int), frame_buffer_len == tl.len(), tl.len() == tab.len(), g == g_tab(tab),
 //@ end
 
 // path t is a target at two different places of the table
